@@ -294,6 +294,20 @@ def gen(tier, seed):
         if m is not None:
             mods.append(m)
             n += 1
+    # exactly one compared field, and it carries a method (single-field shortcuts must not forget it): every trait set x shape kind
+    k = 0
+    for fl in (['m'], ['i', 'm', 'i'], ['m', 'i']):
+        for mode in MODES:
+            for pl in (0, 1, 3):       # named struct, tuple struct, tuple variant
+                if (k + len(fl)) % 2 and tier == 'quick' and not (mode == 'pord' and pl < 2):
+                    k += 1
+                    continue
+                k += 1
+                shape, ranks = place(fl, [None] * len(fl), pl)
+                m = emit(f'm{n:04d}', f'{S.shape_id(shape)}/ranks=default/{mode}/single compared field with a method', shape, ranks, mode)
+                if m is not None:
+                    mods.append(m)
+                    n += 1
     for k, (fl, mode) in enumerate([(['p', 'x', 'p'], 'pord'), (['x', 'p'], 'both_ord'), (['m', 'x', 'p'], 'ordonly'), (['p', 'x'], 'both_pord'), (['x', 'n', 'p'], 'pord')]):
         shape, ranks = place(fl, [None] * len(fl), k + 1)
         m = emit(f'm{n:04d}', f'{S.shape_id(shape)}/ranks=default/{mode}/ignore+method on one field', shape, ranks, mode)
